@@ -336,7 +336,9 @@ class Differ:
             data=syn_pairs)
 
         for (lidx, lele, ridx, rele) in syn_pairs:
-            if lele is None:
+            # An absent element is indicated by its index because a present
+            # element may itself be null.
+            if lidx is None:
                 next_path = path + "[{}]".format(ridx)
                 diff_action = DiffActions.ADD
                 opposite_val = None
@@ -359,7 +361,7 @@ class Differ:
                     diff_action, next_path, opposite_val, rele,
                     lhs_parent=lhs, lhs_iteration=lidx,
                     rhs_parent=rhs, rhs_iteration=ridx))
-            elif rele is None:
+            elif ridx is None:
                 next_path = path + "[{}]".format(lidx)
                 self._diffs.append(
                     DiffEntry(
